@@ -22,6 +22,8 @@ def check(tree, rep, tier='quick', seed=0):
     l2_effects(tree, rep)
     l2b_shared_iterators(tree, rep)
     l2c_generators_consumed_once(tree, rep)
+    from ..linerules import l6_iterated_sequences_are_not_edited
+    l6_iterated_sequences_are_not_edited(tree, rep)
     R.k6_single_value_writer(core, rep)
     R.k12_schedule_once(core, rep)
     R.k13_add_form(core, rep)            # what a form load registers does not depend on how the form was first reached
